@@ -162,11 +162,17 @@ def run_spec(spec, props=("C14",)):
         Tdur2 = {u: 1 + (u % 3) for u in range(n)}
         run1 = run_all
 
+        Tdelay3 = {(u, v): 1 + ((u * v + v) % 3) for u in range(n) for v in range(n)}
+        Tdur3 = {u: 2 + ((u + 1) % 2) for u in range(n)}
+        Tdelay4 = {(u, v): 1 for u in range(n) for v in range(n)}
+        Tdur4 = {u: 1 + (u % 2) for u in range(n)}
+
         def run_all(G, labels):
             a = run1(G, labels)
-            b = run1(G, labels, Tdelay2, Tdur2, "[ties]")
-            b.pop("discrete_SIR[ties]", None)
-            a.update(b)
+            for k, (td, tu) in enumerate(((Tdelay2, Tdur2), (Tdelay3, Tdur3), (Tdelay4, Tdur4))):
+                b = run1(G, labels, td, tu, "[ties%d]" % (k + 1))
+                b.pop("discrete_SIR[ties%d]" % (k + 1), None)
+                a.update(b)
             return a
         ref = run_all(G0, ident)
         for (vname, labels, no, eo) in variants:
